@@ -74,3 +74,13 @@ package kgo
 //@   ensures [failed-write-keeps-the-id] writeErr != nil ==> cxn.corrID == old(cxn.corrID)
 //@ audit initonly brokerCxn.corrID except (*brokerCxn).writeRequest
 //@   prop C22
+
+// handleResps (the per-connection response worker): it keeps going for as long as the ring hands it another
+// waiter - also after the connection died, when every remaining waiter is failed with errChosenBrokerDead instead
+// of being read for - and stops only when dropPeek reports the ring empty: no queued waiter is left without its
+// one response or error.
+//@ func (cxn *brokerCxn) handleResps(pr promisedResp)
+//@   prop C22
+//@   loop 0 exit [worker-stops-only-when-the-ring-is-empty] !more
+//@   site call promise#0 assert [waiters-behind-a-dead-connection-are-failed] dead && arg1 == errChosenBrokerDead
+//@   site call handleResp#0 assert [read-only-while-the-connection-lives] !dead
